@@ -367,7 +367,13 @@ pub fn long_tables(builder: bool, size: usize) -> (u64, u64, Vec<Violation>) {
             }
         };
         if builder {
-            let val = |v: u32| -> PType { prim(lit::primitive(scale_info::TypeDefPrimitive::U8), &[&format!("t{v:03}")], &[], vec![]) };
+            // distinct values = u8 under distinct one-segment paths; the first eight names are the classic families of strings
+            // with equal polynomial (31-multiplier) hashes, so that an index keyed by a weak fingerprint meets collisions
+            const COLLIDING: [&str; 8] = ["Aa", "BB", "AaAa", "AaBB", "BBAa", "BBBB", "AaAaAa", "BBBBBB"];
+            let val = |v: u32| -> PType {
+                let name = if (v as usize) < COLLIDING.len() { COLLIDING[v as usize].to_string() } else { format!("t{v:03}") };
+                prim(lit::primitive(scale_info::TypeDefPrimitive::U8), &[&name], &[], vec![])
+            };
             let mut b = PortableRegistryBuilder::new();
             for k in 0..=size {
                 states += 1;
